@@ -111,6 +111,13 @@ func (g *Gen) submit(op Op, minDelay int) {
 		g.x.stats.inc("fault_drop")
 		return
 	}
+	if g.faults["oog"] && op.K == "tx" && g.chance(0.04) {
+		// F6a: the tx runs out of gas at an arbitrary store access
+		t := *op.Tx
+		t.Gas = uint64(1000 + g.pick(40000))
+		op.Tx = &t
+		g.x.stats.inc("fault_gas_limited_tx")
+	}
 	d := minDelay
 	if g.faults["delay"] && g.chance(0.25) {
 		d += 1 + g.pick(3)
